@@ -6,7 +6,16 @@ from common import REPO, hx  # noqa: F401
 
 
 def rand_bytes(rng, n, style=None):
-    style = style or rng.choice(['uniform', 'uniform', 'ff', 'zero', 'bits', 'ramp', 'const', 'rows'])
+    style = style or rng.choice(['uniform', 'uniform', 'ff', 'zero', 'bits', 'ramp', 'const', 'rows', 'single'])
+    if style == 'single':
+        # all zero except one byte in every 68-byte stretch, at a position that moves through the stretch (sfx patterns, rows, cells
+        # whose only content is their last / first / some middle byte)
+        out = bytearray(n)
+        for k in range(0, n, 68):
+            j = k + (k // 68 * 7 + rng.randrange(3) - 1) % 68
+            if j < n:
+                out[j] = rng.randrange(1, 256)
+        return bytes(out)
     if style == 'const':
         # one byte value throughout, its two nibbles different (a two-colour stripe pattern in gfx terms)
         hi, lo = rng.sample(range(16), 2)
